@@ -138,6 +138,7 @@ def cases(tier):
                 c = dict(d)
                 c.update({'grid': g, 'ff': fam, 'fs': fam, 'mix': fam, 'zoff': 0.6})
                 out.append(c)
+                out.append(dict(c, phantom=True))
     return out
 
 
@@ -164,6 +165,10 @@ def scenario_of(c):
         regions = {'lower': {'z_lo': 0.0, 'z_hi': zoff, 'vf_coolant': 0.3}}
         if sp:
             sp = dict(sp, axial_positions=[z + zoff for z in sp['axial_positions']])
+            if c.get('phantom'):
+                # one more listed position, in the lower reflector: outside the pin bundle it is not a
+                # grid of the bundle (the reader says it skips it) and must not enter the split
+                sp['axial_positions'] = [0.5 * zoff] + sp['axial_positions']
     dsn = S.design(n, pd=c['pd'], hd=c['hd'] if c['wire'] else 30.0,
                    wire=c['wire'], clearance=c['clr'],
                    oftf=0.012 * n + 0.03,
@@ -435,6 +440,8 @@ def run_case(c):
         base['probe'] = c['probe']
     if c.get('zoff'):
         base['zoff'] = c['zoff']
+    if c.get('phantom'):
+        base['phantom'] = True
     ex = {'accept': {}, 'levels': {}, 'dpdz': {}, 'bundle_eq': 0, 'passed_by_x_distance': 0, 'approx_fallback_levels': 0,
           'exact_hits': 0, 'exact_miss': 0, 'construct_rejected': {}}
     r['extra'] = ex
@@ -709,6 +716,93 @@ def run_case(c):
 
 
 # ----------------------------------------------------------------------
+# part `clones`: the correlated state each core position holds is its own
+def clone_cases(tier):
+    out = []
+    fams = ('CTD', 'UCTD')
+    for kind in ('rodded', 'lowfi'):
+        for fam in fams:
+            for g in (('none', 'CDD') if tier == 'quick' else ('none', 'K', 'REH', 'CDD')):
+                for rings in ((3,) if tier == 'quick' else (2, 3, 4)):
+                    out.append({'probe': 'clones', 'kind': kind, 'ff': fam, 'fs': fam, 'mix': fam, 'grid': g,
+                                'rings': rings, 'pd': 1.2, 'hd': 30.0, 'wire': True, 'clr': 'tight'})
+    return out
+
+
+# flow rates (kg/s) of the positions of one type: laminar .. turbulent for the designs used here
+CLONE_FLOWS = (0.02, 0.3, 4.0, 0.08, 1.1)
+
+
+def _clone_scn(c, flows):
+    n = c['rings']
+    dsn = S.design(n, pd=c['pd'], hd=c['hd'], wire=c['wire'], clearance=c['clr'], oftf=0.012 * n + 0.03,
+                   corr=(c['ff'], c['fs'], c['mix']), spacer=GRIDS[c['grid']],
+                   lowfi={'model': 'simple'} if c['kind'] == 'lowfi' else None)
+    pos = S.core_positions(2)[:len(flows)]
+    assign = [['A', rg, p, {'flowrate': f}] for (rg, p), f in zip(pos, flows)]
+    pw = {str(S.asm_id(rg, p) + 1): {'rings': n, 'nduct': 1, 'cells': [0.0, LENGTH], 'q': 200.0 * f,
+                                     'pins': 'uniform'} for (rg, p), f in zip(pos, flows)}
+    return {'setup': {}, 'core': {'inlet': 623.15, 'length': LENGTH, 'pitch': max(dsn['duct_ftf']) + 0.004,
+                                  'gap_model': 'none', 'bypass_fraction': 0.0, 'coolant': COOLANT},
+            'types': {'A': dsn}, 'assign': assign, 'power': {'asm': pw}}
+
+
+def _corr_state(a):
+    reg = a.region[0]
+    rr = reg if reg.is_rodded else getattr(reg, 'rod_bundle', None) or getattr(reg, '_rr_equiv', None)
+    if rr is None:
+        for v in reg.__dict__.values():
+            if hasattr(v, 'coolant_int_params') and hasattr(v, 'corr'):
+                rr = v
+                break
+    st = {}
+    for k in ('Re', 'fs', 'ff', 'Re_sc', 'vel', 'eddy', 'swirl'):
+        if rr is not None and k in rr.coolant_int_params:
+            st[k] = np.array(rr.coolant_int_params[k], dtype=float, copy=True).ravel()
+    return st, rr
+
+
+def run_clones(c):
+    """five positions of one assembly type with flows from laminar to turbulent, built by the real Reactor:
+    the Reynolds number, flow split, friction factor (and the other correlated parameters) each position
+    holds after set-up must be those of a stand-alone Reactor with that flow (differential twin)"""
+    r = new_result()
+    V = r['violations']
+    try:
+        with S.Built(_clone_scn(c, CLONE_FLOWS)) as b:
+            rx = b.reactor()
+            got = [_corr_state(a) for a in rx.assemblies]
+            flows = [float(a.flow_rate) for a in rx.assemblies]
+        r['transitions'] += 1
+    except (Exception, SystemExit) as e:
+        V.append(violation('clones-setup-failed', c, '%s: %s' % (type(e).__name__, str(e)[:200]), site=site_of(e)))
+        r['outcome'] = 'failed'
+        return r
+    for i, f in enumerate(flows):
+        with S.Built(_clone_scn(c, [f])) as b:
+            ref, rr0 = _corr_state(b.reactor().assemblies[0])
+        r['transitions'] += 1
+        st, rr = got[i]
+        r['states'] += 1
+        if rr is None or not st:
+            V.append(violation('clones-no-state', dict(c, position=i), 'no correlated state found on the region'))
+            continue
+        for k in sorted(ref):
+            if k not in st or st[k].shape != ref[k].shape or not np.array_equal(st[k], ref[k]):
+                V.append(violation('clone-state-not-own', dict(c, position=i, field=k, flow=f),
+                                   'position %d (flow %.3g kg/s): %s held after set-up is not that of a stand-alone '
+                                   'assembly with the same flow' % (i, f, k),
+                                   None if k not in st else st[k].tolist()[:3], ref[k].tolist()[:3], 0.0,
+                                   site='region_unrodded.py:_RREquivalent.clone' if c['kind'] == 'lowfi'
+                                   else 'region_rodded.py:RoddedRegion.clone'))
+                break
+    r['traces'] = 1
+    r['nontrivial'] = r['states'] > 0
+    r['outcome'] = 'ok' if not V else 'violations'
+    return r
+
+
+# ----------------------------------------------------------------------
 def main(run):
     run.rule = ('every (friction, flow split, mixing) triple x design x spacer-grid x Reynolds level of '
                 'the stated grids; one case = one parsed input + one constructed bundle, one state = one '
@@ -724,6 +818,7 @@ def main(run):
                           project=lambda r: (r['outcome'], r['states'], r['transitions'], r.get('info')))
     results = run.explore('combos', cs, run_case, budget_s=120)
     run.explore('reader', reader_cases(run.tier), run_case, budget_s=120)
+    run.explore('clones', clone_cases(run.tier), run_clones, budget_s=300, chunksize=1)
     # summaries
     w = {'closed': 0.0, 'iter': 0.0, 'bundle': 0.0, 'mass': 0.0, 'xdist': 0.0}
     crashed = set()
@@ -763,7 +858,8 @@ def main(run):
 
 
 def replay(body):
-    r = guarded(run_case, body['scenario'], 600)
+    fn = run_clones if body['scenario'].get('probe') == 'clones' else run_case
+    r = guarded(fn, body['scenario'], 600)
     for v in r['violations']:
         print('VIOLATION property=C12 replay=(inline) kind=%s site=%s %s'
               % (v['kind'], v.get('site'), v['what']))
